@@ -67,7 +67,8 @@ def make_specs(ctx: Ctx, n):
         plan = [{"op": "simulate", "target": "simulate", "init": init, "seed": seed, "vsrc": "given", "needV": True},
                 {"op": "simulate", "target": "solve_and_simulate", "init": init, "seed": seed, "vsrc": "own", "needV": True},
                 {"op": "rel-sim", "a": 1, "b": 2, "map": list(range(na)), "scope": "all", "what": "ss-equals-solve-then-simulate"}]
-        specs.append(mk_spec(len(specs), m, ["c06"], plan, label="period enters only through an auxiliary function, T >= 3"))
+        # (the decision clauses of C02 are judged too: off-grid rows of the middle periods carry the evidence as well)
+        specs.append(mk_spec(len(specs), m, ["c06", "c02"], plan, label="period enters only through an auxiliary function, T >= 3"))
     return specs
 
 
